@@ -253,6 +253,9 @@ class Vector(Base):
         return self.__class__(**{c: xyz.to(unit) for c, xyz in self._xyz.items()})
 
     def _wrap_numpy(self, func, *args, **kwargs):
+        vectors = args[0] if isinstance(args[0], (tuple, list)) else args[:2]
+        if any(isinstance(a, self.__class__) and a.nvec != self.nvec for a in vectors):
+            raise ValueError("Operands do not have the same number of components.")
         if isinstance(args[0], (tuple, list)):
             # Case where we have a sequence of vectors, e.g. `concatenate`
             out = {
